@@ -1,6 +1,9 @@
 use alloc::sync::Arc;
 use core::array;
 use core::task::Waker;
+#[cfg(futures_concurrency_verif)]
+use crate::__verif_sync::{Mutex, MutexGuard};
+#[cfg(not(futures_concurrency_verif))]
 use std::sync::{Mutex, MutexGuard};
 
 use super::{InlineWakerArray, ReadinessArray};
